@@ -70,6 +70,9 @@ func genSpecials() []descCase {
 	cyc := func(i int) string { return tyCycle[i%len(tyCycle)] }
 	in := []descCase{
 		{"interface a.b\nmethod M() -> ()\n", "minimal"},
+		// errors of the description that share their member name with the standard org.varlink.service errors: they
+		// are errors of THIS interface, with their own parameters, and must come back as the generated typed errors
+		{"interface a.b\nmethod M(a: int) -> (b: int)\nerror InvalidParameter (parameter: string, reason: string)\nerror MethodNotFound (method: string, why: int)\nerror InterfaceNotFound (interface: string, extra: bool)\n", "std-error-names"},
 		{"interface a.b\nmethod M() -> ()\nerror E\n", "typeless-error"},
 		{"interface a.b\nmethod M() -> ()\nerror E\nerror F ()\nerror G (a: int)\n", "typeless-error"},
 		{"interface a.b\nerror E\nmethod M() -> ()", "typeless-error"},
